@@ -146,7 +146,7 @@ theorem fresh_record_decides (cfg : Cfg) (w : World) (st : St) (id : Nat) (gs : 
 
 /-- When the directory says the record is gone, the account is unknown (PAM falls through to
 the next module), the row is purged and the account is remembered as non-existent. -/
-theorem gone_record_is_unknown_user (cfg : Cfg) (w : World) (st : St) (id : Nat) (r : DirReply)
+theorem gone_record_means_no_such_user (cfg : Cfg) (w : World) (st : St) (id : Nat) (r : DirReply)
     (hdir : id ∉ cfg.sys) (hnx : id ∉ st.nx)
     (hc : cacheGet st.cache id = none ∨
           ∃ e, cacheGet st.cache id = some e ∧ e.expired = true ∧ e.tok.known = true)
@@ -268,7 +268,7 @@ example :
       [(99, .ok (some true)), (1, .ok none), (1, .ok (some true)), (1, .ok (some true)),
        (1, .ok (some false)), (2, .ok (some false)), (1, .ok (some false)), (1, .ok none)] := by
   decide
-/-- hypotheses of `fresh_record_decides` / `gone_record_is_unknown_user` are satisfiable -/
+/-- hypotheses of `fresh_record_decides` / `gone_record_means_no_such_user` are satisfiable -/
 example : (checkOnline w0 St.init.net).2 = true ∧ cacheGet St.init.cache 1 = none ∧ 1 ∉ St.init.nx ∧
     replyState .gone = .notFound := by decide
 /-- a seeded row of a provider the resolver has no client for ends in `Err` -/
